@@ -9,9 +9,12 @@ from .common import VERIF, REPO
 CPP_DIR = os.path.join(VERIF, "vf", "cpp")
 INCLUDE = os.path.join(REPO, "prophy_cpp", "include")
 SAN_FLAGS = ["-std=c++11", "-O0", "-gline-tables-only", "-fsanitize=address,undefined",
-             "-fno-sanitize-recover=all", "-fno-omit-frame-pointer"]
+             "-fno-sanitize-recover=all", "-fsanitize-recover=enum", "-fno-omit-frame-pointer"]
+# -fsanitize=enum alone is recoverable: the load of an out-of-range enum value (a
+# known finding) is reported on stderr and the driver goes on, so that one known
+# defect cannot use up the crash budget of a batch; everything else aborts
 SAN_ENV = {"ASAN_OPTIONS": "detect_leaks=0:abort_on_error=0:exitcode=66:allocator_may_return_null=1",
-           "UBSAN_OPTIONS": "print_stacktrace=1:halt_on_error=1:exitcode=67"}
+           "UBSAN_OPTIONS": "print_stacktrace=0:halt_on_error=0:exitcode=67"}
 
 
 class BuildFailure(Exception):
@@ -162,6 +165,13 @@ def run_driver(exe, cases, workdir, per_run_timeout=120, crash_cap=25):
                 results["NOTYPE:" + parts[1]] = {}
             elif parts[0] == "END":
                 ended = True
+        # recoverable sanitizer reports (stderr) belong to the case whose BEGIN marker precedes them
+        cur_err = None
+        for line in err.splitlines():
+            if line.startswith("BEGIN "):
+                cur_err = line.split()[1]
+            elif "runtime error:" in line and cur_err in results and "ubsan" not in results[cur_err]:
+                results[cur_err]["ubsan"] = line.strip()[:300]
         if ended and rc == 0:
             break
         if current is None:
